@@ -39,8 +39,8 @@ CHECKS = {
         text="C14_overlong_aborts_before_any_change (any position), C14_extends_exactly_the_shorter_files, C14_no_flag_no_prelude_change, open modes from Generated.v; tied to fix_export_file_lengths by runs over random per-file export states with the flag on and off.",
         ref="DESIGN.md section 5 C14", note="A directory sitting at an export path is outside the modelled fragment."),
     "C15": dict(
-        technique="Coq proof (counter arithmetic, one line per piece, success only through good traces) + stdout progress-line oracle + trace validation",
-        text="C15_counters_sum, C15_one_line_per_piece, C15_success_only_via_good_trace; the progress lines of each real run are parsed and compared with the piece count of the distinct torrents, the per-piece outcomes and the export tree afterwards (duplicate / permuted torrent lists included).",
+        technique="Coq proof (rely/guarantee proof that Success implies every segment in place in the fault-free system; counter arithmetic; one line per piece; success only through good traces) + stdout progress-line oracle on real and scheduled runs + trace validation",
+        text="C15_success_means_in_place / C15_in_place_forever (EstablishProofs.v, rely-guarantee): in every fault-free run of the whole system, under every interleaving, when the evaluation of a piece returns Success every non-padding segment of the piece is held by its export file - written by this evaluation or found there - and stays so in every later state (faults and crashes included). C15_counters_sum, C15_one_line_per_piece, C15_success_only_via_good_trace; the progress lines of each real run are parsed and compared with the piece count of the distinct torrents, the per-piece outcomes and the export tree afterwards (duplicate / permuted torrent lists included).",
         ref="DESIGN.md section 5 C15", note="'Every piece evaluated exactly once' is C05; 'available => succeeded' relies on C02 (checked by oracle here). Known finding K3 (duplicate file paths in one torrent: succeeded pieces that do not verify) is listed in known_findings.json."),
     "C16": dict(
         technique="Coq proof (bad path in any position => Fault with no mutating op; no piece program panics; loader total) + child-process runs (bad paths, no/unloadable torrents, degenerate torrents, CLI binary)",
